@@ -128,8 +128,7 @@ Lemma effect_write t p g c k : effect t p = (AWrite g c, k) ->
 Proof.
   unfold effect. destruct (source_of p) as [src|] eqn:S.
   - destruct (t src); [discriminate|]. destruct keep; [discriminate|]. destruct (is_dir (t p)); discriminate.
-  - destruct (t p) as [e|] eqn:T; [|discriminate]. destruct (first_seen_updated e); [|discriminate]. cbn [negb].
-    destruct (target_of p) as [g'|] eqn:G; [|discriminate].
+  - destruct (t p) as [e|] eqn:T; [|discriminate]. destruct (target_of p) as [g'|] eqn:G; [|discriminate].
     destruct e as [cc mt|]; [|discriminate].
     destruct (lazy && newer (t g') mt); [discriminate|]. destruct (generate p cc); [|discriminate].
     destruct (is_dir (t g')); [discriminate|].
@@ -142,8 +141,7 @@ Proof.
   - destruct (t src) eqn:T; [discriminate|]. destruct keep eqn:K; [discriminate|].
     destruct (is_dir (t p)); [discriminate|].
     intros H; inversion H; subst. repeat split; try reflexivity. exists src. split; [reflexivity|exact T].
-  - destruct (t p) as [e|]; [|discriminate]. destruct (first_seen_updated e); [|discriminate]. cbn [negb].
-    destruct (target_of p) as [g'|]; [|discriminate].
+  - destruct (t p) as [e|]; [|discriminate]. destruct (target_of p) as [g'|]; [|discriminate].
     destruct e as [cc mt|]; [|discriminate].
     destruct (lazy && newer (t g') mt); [discriminate|]. destruct (generate p cc); [|discriminate].
     destruct (is_dir (t g')); discriminate.
@@ -153,8 +151,7 @@ Lemma effect_write_nodir t p g c k : effect t p = (AWrite g c, k) -> is_dir (t g
 Proof.
   unfold effect. destruct (source_of p) as [src|] eqn:S.
   - destruct (t src); [discriminate|]. destruct keep; [discriminate|]. destruct (is_dir (t p)); discriminate.
-  - destruct (t p) as [e|] eqn:T; [|discriminate]. destruct (first_seen_updated e); [|discriminate]. cbn [negb].
-    destruct (target_of p) as [g'|] eqn:G; [|discriminate].
+  - destruct (t p) as [e|] eqn:T; [|discriminate]. destruct (target_of p) as [g'|] eqn:G; [|discriminate].
     destruct e as [cc mt|]; [|discriminate].
     destruct (lazy && newer (t g') mt); [discriminate|]. destruct (generate p cc); [|discriminate].
     destruct (is_dir (t g')) eqn:D; [discriminate|]. intros H; inversion H; subst. exact D.
@@ -164,8 +161,7 @@ Proof.
   unfold effect. destruct (source_of p) as [src|] eqn:S.
   - destruct (t src) eqn:T; [discriminate|]. destruct keep eqn:K; [discriminate|].
     destruct (is_dir (t p)) eqn:D; [discriminate|]. intros H; inversion H; subst. exact D.
-  - destruct (t p) as [e|]; [|discriminate]. destruct (first_seen_updated e); [|discriminate]. cbn [negb].
-    destruct (target_of p) as [g'|]; [|discriminate].
+  - destruct (t p) as [e|]; [|discriminate]. destruct (target_of p) as [g'|]; [|discriminate].
     destruct e as [cc mt|]; [|discriminate].
     destruct (lazy && newer (t g') mt); [discriminate|]. destruct (generate p cc); [|discriminate].
     destruct (is_dir (t g')); discriminate.
@@ -189,7 +185,6 @@ Proof.
   intros H1 H0 H2 H3. unfold effect. destruct (source_of p) as [src|] eqn:S.
   - rewrite (H1 src eq_refl). destruct (t src) eqn:TS; [reflexivity|]. rewrite (H0 src eq_refl TS). reflexivity.
   - rewrite (H2 eq_refl). destruct (t p) as [e|] eqn:T; [|reflexivity].
-    destruct (first_seen_updated e); [|reflexivity]. cbn [negb].
     destruct (target_of p) as [g|] eqn:G; [|reflexivity].
     rewrite (H3 g eq_refl) by (try congruence; reflexivity). reflexivity.
 Qed.
@@ -535,20 +530,10 @@ Definition lazy_pre (generate : path -> bytes -> option bytes) (lazy : bool) (t 
   lazy = true -> forall p c mt g gc gmt, visible_dir (fst p) = true -> t p = Some (File c mt) -> target_of p = Some g ->
     t g = Some (File gc gmt) -> Z.ltb mt gmt = true -> generate p c = Some gc.
 
-(* templates outside skipped directories are dated After Go's zero time *)
-Definition mtimes_pre (t : fs) : Prop :=
-  forall p c mt g, visible_dir (fst p) = true -> t p = Some (File c mt) -> target_of p = Some g ->
-    Z.ltb go_zero_time mt = true.
-Lemma wf_mtimes generate lazy root l : wf_tree generate lazy root l = true -> mtimes_pre (lookup l).
-Proof.
-  unfold wf_tree. intros H. apply andb_prop in H as [_ H6].
-  intros p c mt g V L G. apply lookup_some_in in L. rewrite forallb_forall in H6. specialize (H6 _ L).
-  unfold mtime_ok in H6. cbn [fst snd] in H6. rewrite V, G in H6. exact H6.
-Qed.
 Lemma wf_facts generate lazy root l : wf_tree generate lazy root l = true ->
   NoDup (map fst l) /\ matches_pattern root = false /\ no_pattern_dirs (lookup l) /\ lazy_pre generate lazy (lookup l).
 Proof.
-  unfold wf_tree, wf_shape. intros H. apply andb_prop in H as [H _]. apply andb_prop in H as [H H5]. apply andb_prop in H as [H H4].
+  unfold wf_tree. intros H. apply andb_prop in H as [H H5]. apply andb_prop in H as [H H4].
   apply andb_prop in H as [H H3]. apply andb_prop in H as [H1 H2].
   split; [apply nodupb_sound; exact H1|]. split; [apply negb_true_iff; exact H2|]. split.
   - intros p L S. apply lookup_some_in in L. rewrite forallb_forall in H4. specialize (H4 _ L).
@@ -630,7 +615,6 @@ Theorem char_meets_spec root l es :
   spec_holds generate keep l T (exit_fail n).
 Proof.
   intros WF EV T n HT Hn. destruct (wf_facts _ _ _ _ WF) as [ND [_ [NPD LP]]].
-  pose proof (wf_mtimes _ _ _ _ WF) as MP.
   set (t := lookup l) in *.
   assert (INW : forall p e, t p = Some e -> in_walk t p = emitted (p, e)).
   { intros p e L. unfold in_walk. rewrite L. reflexivity. }
@@ -651,7 +635,7 @@ Proof.
       rewrite andb_true_r in IE. cbn [andb] in IE. rewrite andb_true_r in IE.
       destruct (visible_dir qd) eqn:V.
       * assert (Me : mem (qd, sn) es = true) by (apply mem_in, IE; reflexivity). rewrite Me.
-        unfold Walk.effect. rewrite SS, TS. cbn [first_seen_updated]. rewrite (MP (qd, sn) c mt _ V TS G). cbn [negb]. rewrite G.
+        unfold Walk.effect. rewrite SS, TS, G.
         destruct (lazy && newer (t (qd, qn)) mt) eqn:LZ.
         -- cbn [fst apply_action]. apply andb_prop in LZ as [LZ1 LZ2]. unfold newer in LZ2.
            destruct (t (qd, qn)) as [[gc gmt|]|] eqn:TQ; try discriminate.
@@ -701,7 +685,6 @@ Proof.
     apply (walk_in l p ND) in W. fold t in W.
     fold t in P. destruct (t p) as [e|] eqn:TP; [|cbn in P; congruence].
     rewrite (INW _ _ TP) in W.
-    destruct (first_seen_updated e); [|cbn in P; congruence]. cbn [negb] in P.
     destruct (target_of p) as [g|] eqn:G; [|cbn in P; congruence].
     destruct e as [c mt|].
     2:{ apply (NPD _ TP) in S. destruct (target_matches _ _ G) as [M1 _]. congruence. }
@@ -722,7 +705,7 @@ Proof.
     assert (Ie : In src es).
     { apply IE. destruct src as [sd sn]. unfold emitted. cbn [fst snd] in *. rewrite V, M1. reflexivity. }
     unfold exit_fail. apply negb_true_iff, Nat.eqb_neq. subst n. apply nfail_pos. exists src. split; [exact Ie|].
-    unfold Walk.effect. rewrite SS. fold t. rewrite TS. cbn [first_seen_updated]. rewrite (MP src c mt _ V TS G). cbn [negb]. rewrite G.
+    unfold Walk.effect. rewrite SS. fold t. rewrite TS, G.
     destruct (lazy && newer (t g) mt) eqn:LZ.
     + apply andb_prop in LZ as [LZ1 LZ2]. unfold newer in LZ2.
       destruct (t g) as [[gc gmt|]|] eqn:TQ; try discriminate.
@@ -751,8 +734,7 @@ Proof.
   unfold WalkProof.char in T1Q. rewrite S in T1Q.
   rewrite T1S. destruct (t src) as [e|] eqn:TS.
   - destruct (mem src es2) eqn:M2; [|reflexivity].
-    unfold Walk.effect. rewrite SS, T1S.
-    destruct (first_seen_updated e) eqn:FU; [|reflexivity]. cbn [negb]. rewrite G.
+    unfold Walk.effect. rewrite SS, T1S, G.
     destruct e as [c mt|]; [|reflexivity].
     destruct (lazy && newer (t1 q) mt); [reflexivity|].
     destruct (generate src c) as [code|] eqn:GN; [|reflexivity]. rewrite D1.
@@ -763,15 +745,15 @@ Proof.
       apply (template_in_events l1 es2 src _ ND1 EV2 T1S' SS) in M2. fold t1 in M2.
       apply (template_in_events l es src _ ND EV TS SS). fold t.
       unfold in_walk in *. rewrite T1S' in M2. rewrite TS. exact M2. }
-    assert (V : visible_dir (fst src) = true).
-    { apply (template_in_events l es src _ ND EV TS SS) in I1. fold t in I1.
-      unfold in_walk in I1. rewrite TS in I1. destruct src as [sd sn].
-      unfold emitted in I1. apply andb_prop in I1 as [I1 _]. apply andb_prop in I1 as [I1 _]. exact I1. }
     apply mem_in in I1. rewrite I1 in T1Q. rewrite T1Q.
-    unfold Walk.effect. rewrite SS, TS, FU. cbn [negb]. rewrite G.
+    unfold Walk.effect. rewrite SS, TS, G.
     destruct (lazy && newer (t q) mt) eqn:LZ.
     + cbn [fst apply_action]. apply andb_prop in LZ as [LZ1 LZ2]. unfold newer in LZ2.
       destruct (t q) as [[gc gmt|]|] eqn:TQ; try discriminate.
+      assert (V : visible_dir (fst src) = true).
+      { apply mem_in in I1. apply (template_in_events l es src _ ND EV TS SS) in I1. fold t in I1.
+        unfold in_walk in I1. rewrite TS in I1. destruct src as [sd sn].
+        unfold emitted in I1. apply andb_prop in I1 as [I1 _]. apply andb_prop in I1 as [I1 _]. exact I1. }
       rewrite (LP LZ1 src c mt q gc gmt V TS G TQ LZ2) in GN. inversion GN. reflexivity.
     + rewrite GN, D. cbn [fst apply_action]. rewrite upd_same. reflexivity.
   - destruct (mem q es2) eqn:M2; [|reflexivity].
